@@ -171,11 +171,15 @@ func (w *World) captureFlush(st *storeState, header []byte) {
 		if len(base) >= len(header) && string(base[:len(header)]) != string(header) {
 			hdrChanged = "yes"
 		}
+		alloc := "no"
+		if len(header) >= 20 && binary.LittleEndian.Uint64(header[12:20]) != frontier {
+			alloc = "yes"
+		}
 		w.Captured = append(w.Captured, &Image{
 			Sel: sel, Idx: r.idx, Files: files, StmtIdx: w.stmtIdx, InStmt: w.inStmt,
 			Info: map[string]string{
 				"site": "flush", "trigger": w.flushTrigger(), "subset": class,
-				"nW": fmt.Sprint(len(W)), "nNew": fmt.Sprint(nNew), "hdr_changed": hdrChanged,
+				"nW": fmt.Sprint(len(W)), "nNew": fmt.Sprint(nNew), "hdr_changed": hdrChanged, "alloc": alloc,
 			},
 		})
 		w.count("image_flush")
